@@ -131,6 +131,10 @@ package coroutines
 //@ ensures (res != nil) != (err != nil)
 //@ ensures err == nil ==> res.Kind == t_api.ClaimTask && res.ClaimTask != nil
 //@ ensures err == nil ==> linearizes(seq.claim(pre_tasks(r.ClaimTask.Id), post_tasks(r.ClaimTask.Id), T, res.ClaimTask.Status, r.ClaimTask.Counter, r.ClaimTask.ProcessId, r.ClaimTask.Ttl) && (res.ClaimTask.Status == t_api.StatusCreated ==> res.ClaimTask.Task != nil && tview(res.ClaimTask.Task) == tview.row(post_tasks(r.ClaimTask.Id))))
+// the promises handed to the claimant are the ones the task's message names: root under root, leaf under leaf
+//@ ensures [C20 C07 C08] err == nil && res.ClaimTask.Status == t_api.StatusCreated && res.ClaimTask.RootPromise != nil ==> res.ClaimTask.RootPromise.Id == res.ClaimTask.Task.Mesg.Root
+//@ ensures [C20 C07 C08] err == nil && res.ClaimTask.Status == t_api.StatusCreated && res.ClaimTask.LeafPromise != nil ==> res.ClaimTask.Task.Mesg.Type == message.Resume && res.ClaimTask.LeafPromise.Id == res.ClaimTask.Task.Mesg.Leaf
+//@ ensures [C20 C07 C08] err == nil && res.ClaimTask.Status != t_api.StatusCreated ==> res.ClaimTask.RootPromise == nil && res.ClaimTask.LeafPromise == nil
 //@ ensures [C15 C13] err == nil ==> res != nil && res.Kind == t_api.ClaimTask && res.ClaimTask != nil && kstatus.ClaimTask(res.ClaimTask.Status)
 //@ ensures [C15 C13] err != nil ==> kerr.platform(errcode(err))
 
